@@ -57,6 +57,12 @@ func c08Run(tier string, seed uint64, i int) []h.Result {
 					// a different form, a different Go verdict class or a different wrong behaviour is still reported.
 					form := strings.ReplaceAll(strings.ReplaceAll(stmt, root, "T"), "."+name, ".NAME")
 					gov := "accepts" + c08GoSelection(o, name)
+					// The recorded lookup defects need a second member of the same name somewhere in the embedding graph
+					// (shadowed deeper down, or on another path). A wrong answer for a name that is reachable along exactly
+					// one path is a different violation.
+					if o.SrcValid && c08Paths(o, root, name) == 1 {
+						gov += " (the only member of that name in the graph)"
+					}
 					if !o.SrcValid {
 						gov = "rejects(" + selErrClass(firstN(o.SrcErrs, 1)) + ")"
 					}
@@ -98,6 +104,55 @@ func c08GoSelection(o *drive.Outcome, name string) string {
 		}
 	}
 	return best
+}
+
+// c08Paths counts the embedding paths from the root type along which a field or method called name is reachable
+// (all depths, value and pointer embedding, embedded interfaces), according to go/types on the source program.
+func c08Paths(o *drive.Outcome, root, name string) int {
+	if o.Src == nil || o.Src.Pkg == nil {
+		return -1
+	}
+	ob := o.Src.Pkg.Scope().Lookup(root)
+	if ob == nil {
+		return -1
+	}
+	var walk func(t types.Type, depth int) int
+	walk = func(t types.Type, depth int) int {
+		if depth > 8 {
+			return 0
+		}
+		if p, ok := types.Unalias(t).(*types.Pointer); ok {
+			t = p.Elem()
+		}
+		n := 0
+		if nt, ok := types.Unalias(t).(*types.Named); ok {
+			for i := 0; i < nt.NumMethods(); i++ {
+				if nt.Method(i).Name() == name {
+					n++
+				}
+			}
+		}
+		switch u := t.Underlying().(type) {
+		case *types.Struct:
+			for i := 0; i < u.NumFields(); i++ {
+				f := u.Field(i)
+				if f.Name() == name {
+					n++
+				}
+				if f.Embedded() {
+					n += walk(f.Type(), depth+1)
+				}
+			}
+		case *types.Interface:
+			for i := 0; i < u.NumMethods(); i++ { // complete method set (embedded interfaces flattened)
+				if u.Method(i).Name() == name {
+					n++
+				}
+			}
+		}
+		return n
+	}
+	return walk(ob.Type(), 0)
 }
 
 func judgeC08(key string, o *drive.Outcome, name string) h.Result {
